@@ -497,7 +497,7 @@ func main() {
 			time.Sleep(500 * time.Millisecond)
 			now := time.Now().UnixNano()
 			for w := range started {
-				if t0 := atomic.LoadInt64(&started[w]); t0 != 0 && now-t0 > int64(30*time.Second) {
+				if t0 := atomic.LoadInt64(&started[w]); t0 != 0 && now-t0 > int64(scaled(30*time.Second)) {
 					fmt.Fprintf(os.Stderr, "watchdog: a case has been running for more than 30 s\n")
 					os.Exit(97)
 				}
